@@ -37,6 +37,19 @@ def one_case(ctx, P, l, a, o, r):
               what='import of a spelling does not yield its letter/alteration/octave')
     if 'ok' not in ri:
         return
+    # every import hands out its own object: editing a pitch a caller got earlier must not change what a later import of the same spelling yields
+    def own_object():
+        p1 = P.HumdrumPitchImporter().import_pitch(s)
+        p1.octave = p1.octave + 2
+        p1.name = 'D-' if p1.name != 'D-' else 'E'
+        p2 = P.HumdrumPitchImporter().import_pitch(s)
+        return {'name': p2.name, 'octave': p2.octave, 'same_object': p2 is p1}
+    ro = call(own_object)
+    exp_o = {'ok': {'name': agn_name(l, a), 'octave': o, 'same_object': False}}
+    ctx.seen({**inp, 'clause': 'import after a caller edited an earlier result'}, nontrivial)
+    if ro != exp_o:
+        ctx.fail({**inp, 'clause': 'import after a caller edited an earlier result'},
+                 'a second import of the same spelling is affected by edits to the pitch object an earlier import returned', impl=ro, expected=exp_o['ok'])
     # export twice, snapshots
     p = P.AgnosticPitch(ri['ok']['name'], ri['ok']['octave'])
     before = (p.name, p.octave)
